@@ -113,7 +113,7 @@ func jobsFor(id, tier string) []*Job {
 		}
 		rj := wmk("repl", "zzverifw.H_C01_repl", rp)
 		rj.TimeoutS = 300
-		rj.MaxSteps = 3000000
+		rj.MaxSteps = 20000000
 		add(split(rj)...)
 		var sp [][]int
 		for sh := 0; sh < 6; sh++ {
@@ -156,6 +156,7 @@ func jobsFor(id, tier string) []*Job {
 		}
 		sc := mk("scan", "zzverifw.H_C16_scan", cp)
 		add(split(mk("chunks", "zzverifw.H_C16_chunks", ints(0, 3)))...)
+		add(split(mk("layout", "zzverifw.H_C16_layout", ints(0, 18)))...)
 		sc.Overrides = map[string]string{"github.com/macrat/simplexer.shiftPos": "github.com/macrat/simplexer.vShiftPos", "(*github.com/macrat/simplexer.Lexer).makeError": "github.com/macrat/simplexer.vMakeError", "?(*github.com/macrat/simplexer.Lexer).trimRightNullStrings": "github.com/macrat/simplexer.vTrim"}
 		add(split(sc)...)
 	case "C02":
@@ -184,7 +185,7 @@ func jobsFor(id, tier string) []*Job {
 		add(split(mj)...)
 	case "C19":
 		var fp [][]int
-		for hh := 0; hh < 21; hh++ {
+		for hh := 0; hh < 24; hh++ {
 			if thorough {
 				fp = append(fp, []int{hh, -1}) // every later program
 			} else {
@@ -261,10 +262,16 @@ func jobsFor(id, tier string) []*Job {
 		add(split(wmk("recv", "zzverifw.H_C04_recv", ints(0, 6)))...)
 	case "C09":
 		op := [][]int{{1, 0}, {2, 0}, {3, 0}, {2, 2}, {1, 2}}
-		mp := [][]int{{1, 0, 0}, {2, 0, 0}, {1, 1, 0}, {0, 1, 1}, {1, 1, 1}}
+		mp := [][]int{{1, 0, 0, -1}, {2, 0, 0, -1}, {1, 1, 0, -1}, {0, 1, 1, -1}}
+		for k := 0; k < 6; k++ {
+			mp = append(mp, []int{1, 1, 1, k}) // three keys: sharded by the kind of the first key
+		}
 		if thorough {
 			op = append(op, []int{3, 2}, []int{4, 0})
-			mp = append(mp, []int{3, 0, 0}, []int{2, 1, 0}, []int{2, 2, 0}, []int{0, 2, 1}, []int{1, 1, 2})
+			mp = append(mp, []int{0, 2, 1, -1})
+			for k := 0; k < 6; k++ {
+				mp = append(mp, []int{3, 0, 0, k}, []int{2, 1, 0, k}, []int{2, 2, 0, k}, []int{1, 1, 2, k})
+			}
 		}
 		add(split(wmk("obj", "zzverifw.H_C09_obj", op))...)
 		add(split(wmk("map", "zzverifw.H_C09_map", mp))...)
@@ -311,7 +318,7 @@ func jobsFor(id, tier string) []*Job {
 					if narrow == 1 && (op == 1 || op == 2 || thorough) {
 						ps = append(ps, []int{l, i, op, narrow, 1, -1}) // family without declared parameters
 					}
-					if narrow == 1 && (op <= 2 || thorough) && i == 0 {
+					if i == 0 && op <= 2 && (l == 1 || thorough) {
 						ps = append(ps, []int{l, i, op, narrow, 2, -1}) // family whose first yield gives nil for one argument value
 					}
 				}
@@ -489,6 +496,7 @@ func boundsFor(id, tier string, jobs []*Job) map[string]interface{} {
 	case "C16":
 		b["state"] = "buffered bytes 0..4096, unread input 0..8192, run of blanks before the token 0..3000, token length 1..1024 and 1..6000 (each symbolic)"
 		b["reader"] = "full reader and arbitrary short reads"
+		b["layout"] = "19 templates with 1..3 places where a line break is written (after commas and opening brackets of literals and calls, between statements, in function / method / iterator bodies, before every multi-line chain link |. |@ |$ |&. |~. |=. |&@ |~@ |=@ |~$); each place gets a solver choice of 12 layout runs (blank lines, lines of spaces / tabs, comment lines at column 0 and indented, trailing blanks, indentation before the next token); real lexer and parser; AST must print as with plain line breaks"
 		b["content_level"] = "4 concrete sources with multi-byte characters in strings, raw strings, comments, char literals and interpolations, lexed by the real token table through a reader with a solver-chosen chunk size from {1, 2, 3, 5, 7, 16, 2048}; the token texts must equal those of a single full read"
 		if tier == "thorough" {
 			b["reads_per_scan"] = "at most 6"
@@ -505,11 +513,11 @@ func boundsFor(id, tier string, jobs []*Job) map[string]interface{} {
 		b["mixed_forms"] = "28 templates (the prefix operator in a template is a solver choice of - + ! /~): prefix vs chain / infix / **, chain vs infix, indexing and calling vs prefix, calls and indexes as operands, := += => (right-to-left, relative levels), return / raise, if / if-else with infix conditions and branches, arguments and index expressions — infix slots are solver choices (third slot: one operator per level)"
 	case "C19":
 		b["builtins_as_operands"] = "history = one of the 58 call-site / literal constructs of C06 (keyword and positional unpacking, ** merging, bear / bro / patch, concatenation, interpolation, chains, digest, equality) applied to the SHARED built-in objects (Int, Str, Obj, Arr, Nil, Map, Float, Func, BaseObj, Iterable, Comparable) under 3 bindings (solver choice); afterwards the whole constants environment is fingerprint-equal and a fresh program sees the same property lists"
-		b["program_family"] = "21 programs (incl. three that run built-in iterators past their end and four that reach the abstract Either props by indexing, at and callProp): value, raise, nested raise, the variable _, abstract Either props, NoPropErr, shadowing built-in names, failing chain, bear, try capturing _, raising defer, abandon, interpolation"
+		b["program_family"] = "24 programs (incl. invite! / import of a standard module and a later program naming one of its variables; three that run built-in iterators past their end and four that reach the abstract Either props by indexing, at and callProp): value, raise, nested raise, the variable _, abstract Either props, NoPropErr, shadowing built-in names, failing chain, bear, try capturing _, raising defer, abandon, interpolation"
 		if tier == "thorough" {
 			b["pairs"] = "every (history program, later program) pair: 14 x 14, later program a solver choice"
 		} else {
-			b["pairs"] = "every history program x later program in {same program, _, Either.A, plain raise, exhausted array iterator, exhausted str iterator after withI, Either['A]} (solver choice)"
+			b["pairs"] = "every history program x later program in {same program, _, Either.A, plain raise, exhausted array iterator, exhausted str iterator after withI, Either['A], the module variable message} (solver choice)"
 		}
 		b["runtest"] = "3 first files x 3 second files through the real setup + runTest"
 	case "C06":
